@@ -382,7 +382,12 @@ class WebsocketSession(object):
             return
 
         # Connected to the server, but not yet upgraded to websockets
-        yield events.Connected(url, proxy=proxy)
+        try:
+            yield events.Connected(url, proxy=proxy)
+        except GeneratorExit:
+            # Abandoned by the caller, don't leak the socket
+            self._close_socket()
+            raise
 
         selector = self._selector_cls(sock)
         log.debug('%r created', selector)
@@ -412,6 +417,10 @@ class WebsocketSession(object):
                         if websocket.is_active:
                             self._socket_fail('connection lost')
                         break
+        except GeneratorExit:
+            # Abandoned by the caller, don't leak the socket
+            self._close_socket()
+            raise
         except _ForceDisconnect as error:
             self._close_socket()
             yield events.Disconnected('disconnected; {}'.format(error))
